@@ -1,10 +1,110 @@
-// Package c20: harness for property C20 (stub until built).
+// Package c20: harness for property C20 — erasure coding (x/da/erasurecoding on top of
+// klauspost/reedsolomon), shard assignment (x/da/types/shards.go) and proof binding
+// (x/da/zkp + Msg/SubmitValidityProof on the running application).
 package c20
 
-import "fmt"
+import (
+	"fmt"
+	"strings"
 
-// Run generates n cases from seed, runs them on the real application and writes
-// cases_*.v and stats.json into outDir.
+	"verifharness/emit"
+)
+
+const rule = "round trip: real ErasureCode + ReconstructAndJoinShards on generated (blob, k, m, erasure set); " +
+	"non-trivial when exactly m or m+1 shards are erased or the blob length is not a multiple of k, distinct by (k, m, len, #erased, pattern class). " +
+	"assignment: real ShardIndicesForValidator against the model fed with the swap stream recorded from rand.Shuffle with the same seed; " +
+	"non-trivial when 0 < threshold < n, distinct by (address, threshold, n). " +
+	"binding: real Msg/SubmitValidityProof with real Groth16 proofs; non-trivial when at least one pair reaches verification, distinct by (indices, proof ids, hash ids)"
+
+// byte as the Coq constructor of Init.Byte.byte
+func coqByte(b byte) string { return fmt.Sprintf("x%02x", b) }
+
+func coqBytes(bs []byte) string {
+	var sb strings.Builder
+	sb.Grow(len(bs)*5 + 2)
+	sb.WriteByte('[')
+	for i, b := range bs {
+		if i > 0 {
+			sb.WriteByte(';')
+		}
+		sb.WriteString(coqByte(b))
+	}
+	sb.WriteByte(']')
+	return sb.String()
+}
+
+func coqRows(rows [][]byte) string {
+	xs := make([]string, len(rows))
+	for i, r := range rows {
+		xs[i] = coqBytes(r)
+	}
+	return emit.List(xs)
+}
+
+// a shard as Coq [option (list byte)]: nil slice = None
+func coqShards(sh [][]byte) string {
+	xs := make([]string, len(sh))
+	for i, s := range sh {
+		if s == nil {
+			xs[i] = "None"
+		} else {
+			xs[i] = "(Some " + coqBytes(s) + ")"
+		}
+	}
+	return emit.List(xs)
+}
+
+func coqNats(xs []int) string {
+	ss := make([]string, len(xs))
+	for i, x := range xs {
+		ss[i] = fmt.Sprintf("%d%%nat", x)
+	}
+	return emit.List(ss)
+}
+
+func coqZs(xs []int64) string {
+	ss := make([]string, len(xs))
+	for i, x := range xs {
+		ss[i] = emit.ZI(x)
+	}
+	return emit.List(ss)
+}
+
+type ctxRun struct {
+	r  *emit.Rand
+	st *emit.Stats
+	cf *emit.CasesFile
+}
+
+// Run generates n cases (plus the fixed corpus) and writes cases + stats into outDir.
 func Run(seed int64, n int, outDir string) error {
-	return fmt.Errorf("c20: harness not built yet")
+	c := &ctxRun{
+		r:  emit.NewRand(seed),
+		st: emit.NewStats("C20", seed, rule),
+		cf: &emit.CasesFile{Import: "Da.C20Check", Runner: "run", Type: "c20_case"},
+	}
+	// corpus first
+	if err := c.rsCorpus(); err != nil {
+		return err
+	}
+	nRS := n * 45 / 100
+	nMal := n * 10 / 100
+	nShuf := n * 23 / 100
+	nSub := n - nRS - nMal - nShuf
+	for i := 0; i < nRS; i++ {
+		c.rsRound(c.genRound(), "gen")
+	}
+	for i := 0; i < nMal; i++ {
+		c.rsMalformed()
+	}
+	if err := c.shuffleCases(nShuf); err != nil {
+		return err
+	}
+	if err := c.submitCases(nSub); err != nil {
+		return err
+	}
+	if _, err := c.cf.Write(outDir, "cases", 60); err != nil {
+		return err
+	}
+	return c.st.Write(outDir)
 }
